@@ -542,6 +542,32 @@ fn formatter_cases(sink: &mut Sink, rng: &mut Rng) {
     }
 }
 
+/// the SARIF artifact URI of hostile paths, against the percent-encoding model
+fn uri_cases(sink: &mut Sink) {
+    for s in NAMES.iter().copied().chain(["a b/c#d?e.rs", "100%.rs", "é/ü.rs", "a:b.rs", "~tilde_-.rs", "tab\there.rs", "q\"uote.rs", "plus+and&.rs", "[x]{y}.rs", "日本/語.rs"]) {
+        if !sink.want() {
+            sink.skip();
+            continue;
+        }
+        if s.is_empty() {
+            sink.skip();
+            continue;
+        }
+        let r = CheckResult::Failed { path: PathBuf::from(s), stats: LineStats { total: 1, code: 1, comment: 0, blank: 0, ignored: 0 }, raw_stats: None, limit: 0, override_reason: None, suggestions: None, violation_category: None };
+        let shown_path = shown(&r);
+        let out = SarifFormatter::new().format(std::slice::from_ref(&r)).unwrap_or_default();
+        let uri = serde_json::from_str::<serde_json::Value>(&out).ok().and_then(|v| sarif_check(&v).ok()).and_then(|rows| rows.first().map(|x| x.0.clone()));
+        let (implementation, pred) = match uri {
+            Some(u) => {
+                let pred = if percent_decode(&u) != shown_path.as_bytes() { Some(format!("the URI {u:?} does not decode to the path {shown_path:?}")) } else { None };
+                (enc(&u), pred)
+            }
+            None => ("-".to_string(), Some("no artifact URI in the SARIF output".to_string())),
+        };
+        sink.push(Case { request: format!("uri {}", enc(&shown_path)), implementation, pred: pred.map_or_else(|| "ok".into(), |p| format!("FAIL {p}")), tag: "uri".into() });
+    }
+}
+
 fn escape_cases(sink: &mut Sink) {
     for s in NAMES.iter().chain(REASONS).copied().chain(["", "&&&", "&lt;", "<<>>", "\"'\"'", "a&amp;b&#39;"]) {
         if !sink.want() {
@@ -1002,6 +1028,7 @@ pub fn run(tier: Tier, seed: u64, out: &str) {
     let mut rng = Rng::new(seed ^ 0xC20);
     let scratch = std::env::var("SGVERIF_SCRATCH").unwrap_or_else(|_| "/verif/.build/scratch/c20".to_string());
     escape_cases(&mut sink);
+    uri_cases(&mut sink);
     for _ in 0..tier.scale(400, 6000) {
         let mut r = rng.fork();
         formatter_cases(&mut sink, &mut r);
